@@ -99,6 +99,7 @@ def run_shard(pid, tier, seed, shard, nshards, budget_s, out):
     faulthandler.dump_traceback_later(budget_s * 3 + 120, exit=True)
     ctx = Ctx(pid, tier, seed, shard, nshards, budget_s)
     ctx.shard_env = kind
+    ctx.hash_seed = os.environ.get("PYTHONHASHSEED", "")
     from . import vclock
 
     if shard % 2 == 0:
@@ -211,7 +212,9 @@ def check(pid, tier, seed=None, keep=False):
                     ["-m", "vf", "shard", pid, "--tier", tier, "--seed", str(seed),
                      "--shard", str(i), "--nshards", str(nshards), "--budget", str(conf["budget_s"]),
                      "--out", out],
-                    stdout=log, stderr=subprocess.STDOUT, cwd=HOME, env=dict(os.environ, VF_SHARD_ENV=kind),
+                    stdout=log, stderr=subprocess.STDOUT, cwd=HOME,
+                    # each shard has its own string-hash seed: iteration order of sets / dicts keyed by str differs between them
+                    env=dict(os.environ, VF_SHARD_ENV=kind, PYTHONHASHSEED=str(i)),
                 )
                 running[i] = (p, out, log, time.monotonic())
             time.sleep(0.02)
@@ -314,6 +317,11 @@ def replay(path):
         rec = json.load(fp)
     pid = rec["property"]
     kind = rec["witness"].get("process_environment", "") if isinstance(rec.get("witness"), dict) else ""
+    hs = rec["witness"].get("hash_seed") if isinstance(rec.get("witness"), dict) else None
+    if hs not in (None, "", os.environ.get("PYTHONHASHSEED")) and not os.environ.get("VF_REPLAY_REEXEC"):
+        # the witness was observed under another string-hash seed: replay it there
+        return subprocess.run([sys.executable] + (["-O"] if kind == "python-O" else []) + ["-m", "vf", "replay", path], cwd=HOME,
+                              env=dict(os.environ, PYTHONHASHSEED=str(hs), VF_REPLAY_REEXEC="1")).returncode
     if kind == "python-O" and not sys.flags.optimize:
         # the witness was observed under `python -O`: replay it there
         return subprocess.run([sys.executable, "-O", "-m", "vf", "replay", path], cwd=HOME).returncode
